@@ -9,7 +9,11 @@ AllDevs == {"HlineClosesLevel1"}
 Words == [i \in 1..80 |-> "w" \o ToString(i)]   \* constant: evaluated once
 W(i) == Words[i]
 HasF(line) == "f" \in DOMAIN line /\ line.f
-Fil(line) == IF HasF(line) THEN << [k |-> "SP", n |-> 1], [k |-> "MAGIC", m |-> "F"] >> ELSE <<>>
+Fil(line) ==
+  IF HasF(line) THEN << [k |-> "SP", n |-> 1], [k |-> "MAGIC", m |-> "F"] >>
+  ELSE IF "s" \in DOMAIN line
+  THEN << [k |-> "SP", n |-> 1], line.s >> \o (IF line.z THEN << [k |-> "SP", n |-> 1], [k |-> "TXT", a |-> <<"z">>] >> ELSE <<>>)
+  ELSE <<>>
 Tokens(line, i) ==
   LET w == [k |-> "TXT", a |-> <<W(i)>>] IN
   CASE line.t = "H" -> << [k |-> "HS", l |-> line.l], w >> \o Fil(line) \o << [k |-> "HE", l |-> line.l], [k |-> "NL"] >>
@@ -18,10 +22,105 @@ Tokens(line, i) ==
     [] line.t = "R" -> << [k |-> "HR"], [k |-> "NL"] >>
     [] line.t = "B" -> << [k |-> "NL"] >>
 
-RECURSIVE FeedDoc(_, _, _)
-FeedDoc(st, d, i) == IF i > Len(d) THEN st ELSE FeedDoc(Feed(st, Tokens(d[i], i), 1), d, i + 1)
-MachineTree(d, Dev) == Finish(FeedDoc(InitState(Dev), d, 1)).root
+(* ------------------------------------------------------------------------ *)
+(* Structured fillers: balanced markup with inner structure.                 *)
+(*                                                                            *)
+(* The opaque filler above (MAGIC "F") is one token on one line.  A           *)
+(* structured filler is a link / template call / argument reference /        *)
+(* external link whose arguments hold words, blanks, NEWLINES, characters     *)
+(* that mean something at a line start ("*", "#", a leading blank) and       *)
+(* further such constructs:                                                   *)
+(*   filler = [k |-> "FILL", m |-> "T"|"A"|"L"|"E", args |-> Seq(Seq(piece))] *)
+(*   piece  = a token of Parser.tla (TXT, SP, NL, LP) or a filler             *)
+(* A line may carry one in the field s (after its marker word; the field z    *)
+(* says whether a further word follows the filler on the same line).          *)
+(*                                                                            *)
+(* magic_fn (parser.py) is transcribed for them: it is recursive              *)
+(* (process_text over every argument, vbar_fn called directly between two     *)
+(* arguments), and while it is inside the arguments the line-start machinery  *)
+(* is switched off by ctx.begline_disabled, a COUNTING context manager.  The  *)
+(* state therefore has two more fields                                        *)
+(*   beg  ctx.begline_disable_counter     en  ctx.begline_enabled             *)
+(* and every handler of Parser.tla, which reads `bol` where the code reads    *)
+(* `beginning_of_line and begline_enabled`, is run on the masked state Eff.   *)
+(* (Handlers that read beginning_of_line alone -- rules, headings, tables --  *)
+(* do not occur inside the fillers of the universes.)  Only the stack         *)
+(* discipline is modelled exactly; what a URL frame does with its text is not *)
+(* (trees inside fillers are not compared, the relations of the marker words  *)
+(* are).                                                                      *)
+(*                                                                            *)
+(* Model deviation (never part of AllDevs; Demo_ParserRef_begline.cfg):       *)
+(*   "BeglineFlagNotCounted"  leaving ANY construct switches the line-start   *)
+(*                            machinery on again (a flag instead of a counter)*)
+ModelDevs == {"BeglineFlagNotCounted"}
+ArgKinds == {"LINK", "TEMPLATE", "TEMPLATE_ARG", "PARSER_FN", "URL"}      \* HAVE_ARGS_KIND_FLAGS
+FillKind(m) == CASE m = "T" -> "TEMPLATE" [] m = "A" -> "TEMPLATE_ARG" [] m = "L" -> "LINK" [] m = "E" -> "URL"
 
-Plain(d) == [i \in 1..Len(d) |-> [x \in (DOMAIN d[i]) \ {"f"} |-> d[i][x]]]
+InitS(Dev) == LET s == InitState(Dev) IN
+  [stack |-> s.stack, bol |-> s.bol, wsp |-> s.wsp, line |-> s.line, pre |-> s.pre, stuck |-> s.stuck,
+   dev |-> s.dev, beg |-> 0, en |-> TRUE]
+Eff(st) == IF st.en THEN st ELSE [st EXCEPT !.bol = FALSE]
+\* run a handler of Parser.tla where the code tests `beginning_of_line and begline_enabled`
+Masked(st, Op(_)) == IF st.en THEN Op(st) ELSE [Op([st EXCEPT !.bol = FALSE]) EXCEPT !.bol = st.bol]
+
+\* _parser_pop of a node with arguments: the remaining children become the last argument
+PopA(st) ==
+  LET f == Top(st) IN
+  IF f.kind \in ArgKinds THEN Pop(SetTop(st, [f EXCEPT !.largs = Append(f.largs, f.children), !.children = <<>>]))
+  ELSE Pop(st)
+
+\* vbar_fn as magic_fn calls it between two arguments (not via process_text: the
+\* line-start flags keep the values the previous argument left)
+RECURSIVE VbarArg(_)
+VbarArg(st) ==
+  LET f == Top(st) IN
+  IF st.stuck THEN st
+  ELSE IF f.kind = "URL" THEN Masked(st, LAMBDA s : TextFn(s, <<"|">>))
+  ELSE IF f.kind \in ArgKinds THEN SetTop(st, [f EXCEPT !.largs = Append(f.largs, f.children), !.children = <<>>])
+  ELSE IF Have(st, {"TABLE"}) THEN Masked(st, LAMBDA s : TableCellFn(s, <<"|">>))
+  ELSE IF Have(st, ArgKinds) THEN VbarArg(PopA(st))
+  ELSE Masked(st, LAMBDA s : TextFn(s, <<"|">>))
+
+\* the loop after the arguments: pop down to and including the construct's own frame
+RECURSIVE CloseMagic(_, _)
+CloseMagic(st, kind) ==
+  LET f == Top(st) IN
+  IF st.stuck \/ f.kind = "ROOT" THEN st
+  ELSE IF f.kind = kind \/ (kind = "TEMPLATE" /\ f.kind = "PARSER_FN") THEN PopA(st)
+  ELSE CloseMagic(PopA(st), kind)
+
+RECURSIVE FeedS(_, _, _), StepS(_, _), MagicRec(_, _), ProcArgs(_, _, _)
+\* BegLineDisableManager.__exit__: the counter goes down; the flag comes back when it reaches zero
+LeaveArgs(st) ==
+  LET n == st.beg - 1 IN
+  [st EXCEPT !.beg = n, !.en = IF n < 1 \/ "BeglineFlagNotCounted" \in st.dev THEN TRUE ELSE @]
+MagicRec(st0, f) ==
+  LET kind == FillKind(f.m)
+      c == Masked(st0, CloseBeglineLists) IN
+  IF c.stuck THEN c
+  ELSE LET st1 == Push([c EXCEPT !.bol = FALSE], kind, <<>>)          \* ctx.beginning_of_line = False
+           st2 == [st1 EXCEPT !.beg = @ + 1, !.en = FALSE]            \* with ctx.begline_disabled:
+           st3 == LeaveArgs(ProcArgs(st2, f.args, 1))
+       IN IF kind = "URL" /\ ~Have(st3, {"URL"}) THEN Masked(st3, LAMBDA s : TextFn(s, <<"]">>))
+          ELSE CloseMagic(st3, kind)
+ProcArgs(st, args, i) ==
+  IF i > Len(args) \/ st.stuck THEN st
+  ELSE ProcArgs(FeedS(IF i = 1 THEN st ELSE VbarArg(st), args[i], 1), args, i + 1)
+\* the body of process_text's loop for one token
+StepS(st, tok) ==
+  IF st.stuck THEN st
+  ELSE IF tok.k = "FILL"
+  THEN [MagicRec(st, tok) EXCEPT !.wsp = FALSE, !.bol = FALSE]
+  ELSE IF st.en THEN Step(st, tok)
+  ELSE LET r == Handle([st EXCEPT !.bol = FALSE], tok) IN
+       [r EXCEPT !.line = r.line + NewLines(tok), !.wsp = st.bol /\ tok.k \in {"SP", "NL"}, !.bol = (tok.k = "NL")]
+FeedS(st, toks, i) == IF i > Len(toks) THEN st ELSE FeedS(StepS(st, toks[i]), toks, i + 1)
+
+HasS(line) == "s" \in DOMAIN line
+RECURSIVE FeedDoc(_, _, _)
+FeedDoc(st, d, i) == IF i > Len(d) THEN st ELSE FeedDoc(FeedS(st, Tokens(d[i], i), 1), d, i + 1)
+MachineTree(d, Dev) == Finish(FeedDoc(InitS(Dev), d, 1)).root
+
+Plain(d) == [i \in 1..Len(d) |-> [x \in (DOMAIN d[i]) \ {"f", "s", "z"} |-> d[i][x]]]
 MachineRelations(d, Dev) == TreeRelations(MachineTree(d, Dev), d, W)
 =============================================================================
